@@ -1246,3 +1246,82 @@ def retry_api(rng, name):
     api.options = ["transport=grpc", "autogen-snippets=false"]
     api.info.update(pkg=pkg, version=ver, ns=["vp"], name=name, host=f"{name}.googleapis.com")
     return api
+
+
+C12_POSITIONS = ["field", "flat", "flat_dotted", "path", "path_dotted", "body", "query", "routing", "routing_nested", "rpc", "file"]
+
+
+def reserved_api(name, words, position):
+    """One library for one position holding all given words at once (C12)."""
+    api = Api(name)
+    ver = "v1"
+    pkg = f"vp.{name}.{ver}"
+    P = "." + pkg
+    dirp = f"vp/{name}/{ver}"
+    f = File(f"{dirp}/{name}.proto", pkg, deps=list(STD_DEPS))
+    api.add(f)
+    rp = f.message("Reply")
+    rp.field("ok", "bool")
+    s = f.service("Words", host=f"{name}.googleapis.com")
+    api.info["items"] = []
+    for i, w in enumerate(words):
+        item = {"word": w, "i": i}
+        if position == "file":
+            fx = File(f"{dirp}/{w}.proto", pkg, deps=list(STD_DEPS))
+            m = fx.message(f"InFile{i}")
+            m.field("value", "string")
+            fx.enum(f"EnumInFile{i}", f"E{i}_UNSPECIFIED", f"E{i}_ONE")
+            api.add(fx)
+            f.pb.dependency.append(fx.pb.name)
+            q = f.message(f"Req{i}")
+            q.field("anchor", "string")
+            q.field("held", P + f".InFile{i}")
+            s.rpc(f"UseFile{i}", P + f".Req{i}", P + f".InFile{i}", http={"post": f"/v1/{{anchor=anchors/*}}:file{i}"}, body="*")
+            item.update(rpc=f"UseFile{i}", req=f"{pkg}.Req{i}", msg=f"{pkg}.InFile{i}")
+            api.info["items"].append(item)
+            continue
+        if position == "rpc":
+            rpcname = w[0].upper() + w[1:]
+            q = f.message(f"Req{i}")
+            q.field("anchor", "string")
+            q.field("text", "string")
+            s.rpc(rpcname, P + f".Req{i}", P + ".Reply", http={"post": f"/v1/{{anchor=anchors/*}}:rpc{i}"}, body="*", sigs=["text"])
+            item.update(rpc=rpcname, req=f"{pkg}.Req{i}")
+            api.info["items"].append(item)
+            continue
+        inner = f.message(f"Inner{i}")
+        inner.field(w, "string", number=3)
+        inner.field("other", "string", number=1)
+        q = f.message(f"Req{i}")
+        q.field("anchor", "string", number=1)
+        if position == "body":
+            q.field(w, P + f".Inner{i}", number=7)
+        else:
+            q.field(w, "string", number=7)
+        q.field("inner", P + f".Inner{i}", number=4)
+        q.field("extra", "string", number=9)
+        kw = {}
+        if position == "field":
+            kw = dict(http={"post": f"/v1/{{anchor=anchors/*}}:f{i}"}, body="*")
+        elif position == "flat":
+            kw = dict(http={"post": f"/v1/{{anchor=anchors/*}}:l{i}"}, body="*", sigs=[f"anchor,{w}"])
+        elif position == "flat_dotted":
+            kw = dict(http={"post": f"/v1/{{anchor=anchors/*}}:d{i}"}, body="*", sigs=[f"anchor,inner.{w}"])
+        elif position == "path":
+            kw = dict(http={"get": f"/v1/{{{w}=things/*}}/p{i}"})
+        elif position == "path_dotted":
+            kw = dict(http={"get": f"/v1/{{inner.{w}=things/*}}/pd{i}"})
+        elif position == "body":
+            kw = dict(http={"post": f"/v1/{{anchor=anchors/*}}:b{i}"}, body=w)
+        elif position == "query":
+            kw = dict(http={"get": f"/v1/{{anchor=anchors/*}}:q{i}"})
+        elif position == "routing":
+            kw = dict(http={"post": f"/v1/{{anchor=anchors/*}}:r{i}"}, body="*", routing=[(w, "")])
+        elif position == "routing_nested":
+            kw = dict(http={"post": f"/v1/{{anchor=anchors/*}}:rn{i}"}, body="*", routing=[(f"inner.{w}", "")])
+        s.rpc(f"Call{i}", P + f".Req{i}", P + ".Reply", **kw)
+        item.update(rpc=f"Call{i}", req=f"{pkg}.Req{i}", inner=f"{pkg}.Inner{i}")
+        api.info["items"].append(item)
+    api.options = ["transport=grpc+rest", "autogen-snippets=false"]
+    api.info.update(pkg=pkg, version=ver, ns=["vp"], name=name, host=f"{name}.googleapis.com", position=position)
+    return api
